@@ -511,6 +511,9 @@ qb_vsnprintf_serialize(char *serialize, size_t max_len,
 			break;
 		}
 		format = p + 1;
+		/* a precision belongs to one conversion only */
+		sformat_length = 0;
+		sformat_precision = QB_FALSE;
 reprocess:
 		switch (format[0]) {
 		case '#': /* alternate form conversion, ignore */
@@ -696,12 +699,8 @@ reprocess:
 			break;
 			}
 		case '%':
-			if (location + 1 > max_len) {
-				return max_len;
-			}
-			serialize[location++] = '%';
-                        sformat_length = 0;
-                        sformat_precision = QB_FALSE;
+			/* "%%" takes no argument: nothing to store, step over it */
+			format++;
 			break;
 
 		}
